@@ -23,3 +23,33 @@ PROPS["C13"] = dict(
         dict(mod="v2", pkg="limit", overlay="harness/v2/limit", harness="^VerifC13_", native=True, mode="int"),
     ],
 )
+
+PROPS["C14"] = dict(
+    level="model_checking",
+    level_text="Bounded symbolic checking of the real Fair/Rate (both modules) from go/ssa: conservation, frame (nothing else changes), Fair's shape and v1==v2 are decided "
+               "for SYMBOLIC priority lists of length n (distinct, descending, full 64-bit values), symbolic 64-bit dividend and symbolic pre-filled distribution; "
+               "Rate's conservation/frame/equivalence hold for ANY value of its float expressions (uninterpreted-function encoding). Rate's order and n/2 share bound are "
+               "decided on a catalogue of concrete lists with a symbolic dividend, split into L1 (exact IEEE-754: the rounded part is within 1/2 of the exact share) and "
+               "L2 (the real Rate with only L1 assumed about its float expression), plus a direct exact-float cross-check for small dividends.",
+    level_note="Bounds: n<=4 quick / n<=8 thorough; E foreign keys; catalogue lists; dividend < 2^Dbits for the float parts. Outside: fully symbolic priorities under exact floats, "
+               "dividends >= 2^32 for the share bound. Trusted: encoder, SMT solvers' FP theory (cvc5), math.Round = roundToIntegral RNA, float64(uint) = to_fp_unsigned RNE, uint(float) = fp.to_ubv RTZ.",
+    technique="symbolic execution of go/ssa; Int encoding (Fair), uninterpreted floats (Rate structure), exact SMT floating point with cvc5 (Rate values)",
+    bounds=dict(quick="Fair/Rate-structure n in 1..4 symbolic priorities, E=1 foreign key; equivalence n in 1..4; L1 on lists [3 2 1],[2 1],[1] with D<2^16; L2 on [3 2 1],[70 20 10],[7 5 3 1] with D<2^32; exact Rate on [3 2 1],[7 5 3 1] with D<2^6",
+                thorough="n in 1..8, E=2; equivalence n<=6; L1 D<2^32 on [3 2 1],[2 1],[1],[4 3 2 1]; L2 on 8 lists; exact Rate D<2^10"),
+    assumptions=["float semantics: SMT-LIB FloatingPoint 11 53, RNE; math.Round = roundToIntegral RNA; conversions RNE/RTZ",
+                 "maps are association lists with pairwise-distinct symbolic keys; map iteration order irrelevant to Fair/Rate (they index by the list)"],
+    groups=[
+        dict(mod="v2", pkg="priority/divider", overlay="harness/v2/divider", harness="^VerifC14_(fair|rate_conservation|degenerate)$", native=True,
+             params=dict(quick=dict(n=[1, 2, 3, 4], E=[1]), thorough=dict(n=[1, 2, 3, 4, 5, 6, 7, 8], E=[2]))),
+        dict(mod="v1", pkg="priority", overlay="harness/v1/priority", harness="^VerifC14_(fair|rate_conservation|degenerate)$", native=True,
+             params=dict(quick=dict(n=[1, 2, 3, 4], E=[1]), thorough=dict(n=[1, 2, 3, 4, 5, 6, 7, 8], E=[2]))),
+        dict(mod="equiv", pkg="", overlay="harness/equiv/src", harness="^VerifC14_equiv", native=False,
+             params=dict(quick=dict(n=[1, 2, 3, 4]), thorough=dict(n=[1, 2, 3, 4, 5, 6]))),
+        dict(mod="v2", pkg="priority/divider", overlay="harness/v2/divider", harness="^VerifC14_rate_L1$", native=True, timeout=dict(quick=60000, thorough=300000),
+             params=dict(quick=dict(list=[0, 4, 5], k=[0, 1, 2], Dbits=[16]), thorough=dict(list=[0, 2, 4, 5], k=[0, 1, 2, 3], Dbits=[32]))),
+        dict(mod="v2", pkg="priority/divider", overlay="harness/v2/divider", harness="^VerifC14_rate_L2$", native=True, approx=True, timeout=dict(quick=60000, thorough=300000),
+             params=dict(quick=dict(list=[0, 1, 3], Dbits=[32]), thorough=dict(list=[0, 1, 2, 3, 4, 5, 6, 7], Dbits=[32]))),
+        dict(mod="v2", pkg="priority/divider", overlay="harness/v2/divider", harness="^VerifC14_rate_exact$", native=True, timeout=dict(quick=60000, thorough=300000),
+             params=dict(quick=dict(list=[0, 3], Dbits=[6]), thorough=dict(list=[0, 1, 2, 3, 4, 5], Dbits=[10]))),
+    ],
+)
